@@ -11,6 +11,14 @@
 (*   raw    [b, st, d]         d = decode_text_string(b) for arbitrary bytes                        *)
 (*   ext    [parts, st1, r1, st2, r2]  a page showing parts[i].b with a font whose encoding is      *)
 (*          parts[i].e; r1 = extract_text, r2 = extract_text after save_to + load_mem               *)
+(*   vtab   [e, fv, st, ds]    the 256 cells decode_text yields through a *different* font          *)
+(*          dictionary fv (other BaseFont / Subtype / widths / descriptor) with the same /Encoding     *)
+(*          name e and no /ToUnicode: the encoding is named by /Encoding, so the published rows apply  *)
+(*          and the table is the one logged for e                                                      *)
+(*   obs    the same without an /Encoding entry: outside the statement, observed and never judged      *)
+(*   rep    [parts, st0, st1, r1, st2, r2]  a page whose Tj operands were rewritten by                 *)
+(*          Document::replace_text (st0) under fonts of different encodings; parts[i].t is the text    *)
+(*          then shown with encoding parts[i].e; r1 / r2 as for ext                                    *)
 (* st fields are "ok" | "err" | "panic" | "noenc".  The only state carried along the trace is the   *)
 (* logged table constant tab[e][b] (DESIGN C16), which the later records are judged with.           *)
 (* Each record is judged by the declarative layer of TextString; vs lists the failed clauses        *)
@@ -92,7 +100,37 @@ JExt(r) ==
        ELSE Verdict(If(~(r.st1 = "ok" /\ Match(ts, r.r1)), "extract.fresh")
                     \o If(~(r.st2 = "ok" /\ Match(ts, r.r2)), "extract.reloaded"), "extract", <<>>)
 
+\* the same encoding name reached through another font dictionary
+JVTab(r) ==
+    IF r.e \notin EncNames THEN Fail(<<"tool:bad-vtab-record">>, <<>>)
+    ELSE IF ncell # NCells THEN Fail(<<"tool:tables-not-logged-first">>, <<>>)
+    ELSE IF r.st # "ok" \/ Len(r.ds) # 256 THEN [Fail(<<"table.decode-fails">>, <<>>) EXCEPT !.cat = "vtab"]
+    ELSE LET cell(b) == r.ds[b + 1]
+             badpub == {b \in 0..255 : ~CellOk(cell(b)) \/ ~PublishedOk(r.e, b, cell(b))}
+             baddep == {b \in 0..255 : cell(b) # tab[r.e][b]}
+             some(S) == CHOOSE b \in S : \A c \in S : b <= c
+         IN [Verdict(If(badpub # {}, "table.published") \o If(baddep # {}, "table.fontdict"), "vtab", <<>>)
+               EXCEPT !.bad = (IF badpub # {} THEN <<[c |-> some(badpub), n |-> Cardinality(badpub), vs |-> <<"table.published">>]>> ELSE <<>>)
+                              \o (IF baddep # {} THEN <<[c |-> some(baddep), n |-> Cardinality(baddep), vs |-> <<"table.fontdict">>]>> ELSE <<>>)]
+
+JObs(r) == Ok("observed")
+
+\* text put on the page by replace_text: every character of the text now shown must be one the font's table has
+JRep(r) ==
+    LET n == Len(r.parts)
+        ts == [i \in 1..n |-> r.parts[i].t]
+        InRepertoire(e, c) == \E b \in 0..255 : tab[e][b] = <<c>>
+    IN IF ncell # NCells THEN Fail(<<"tool:tables-not-logged-first">>, <<>>)
+       ELSE IF \E i \in 1..n : r.parts[i].e \notin EncNames \/ \E j \in 1..Len(ts[i]) : ~InRepertoire(r.parts[i].e, ts[i][j])
+            THEN Fail(<<"tool:rep-case-inconsistent">>, <<>>)
+       ELSE IF r.st0 # "ok" THEN Ok("replace-not-done")         \* replace_text refused: nothing was shown through it
+       ELSE Verdict(If(~(r.st1 = "ok" /\ Match(ts, r.r1)), "replace.fresh")
+                    \o If(~(r.st2 = "ok" /\ Match(ts, r.r2)), "replace.reloaded"), "replace", <<>>)
+
 Judge(r) == CASE r.k = "cell"  -> JCell(r)
+              [] r.k = "vtab"  -> JVTab(r)
+              [] r.k = "obs"   -> JObs(r)
+              [] r.k = "rep"   -> JRep(r)
               [] r.k = "bytes" -> JBytes(r)
               [] r.k = "ts"    -> JTs(r)
               [] r.k = "scal"  -> JScal(r)
